@@ -39,7 +39,7 @@ PYOPS = {"+": operator.add, "-": operator.sub, "*": operator.mul, "/": operator.
 
 
 def budget(tier):
-    return {"quick": dict(examples=700, shards=1), "thorough": dict(examples=12000, shards=16)}[tier]
+    return {"quick": dict(examples=2500, shards=1), "thorough": dict(examples=12000, shards=16)}[tier]
 
 
 @st.composite
